@@ -30,7 +30,9 @@ CHECKS = {
             "bounded-exhaustive single corruption of valid documents (value replacement, header type swap, version mangling, required key/section deletion) against the reference validator table",
             "Every validated value position of every base document of all 7 formats x its corruption alphabet, every foreign header "
             "type at 1.1/1.2/2.0, 7 mangled versions and every required key/section deletion must make loads() raise; where the reader "
-            "coerces (bool/int/lower) the loaded object must be writable and carry an in-domain value at that position.",
+            "coerces (bool/int/lower) the loaded object must be writable and carry an in-domain value at that position; every value "
+            "corruption and key deletion is repeated on the document re-expressed in each older format version that carries the key; "
+            "degenerate documents ({}, [], null, empty text).",
             "Trusts mc/models/validator_table.py and the required-key lists in mc/checks/c07.py; one corruption per document.",
             "DESIGN.md section 5, C07"),
     "C08": ("model_checking",
@@ -71,9 +73,11 @@ CHECKS = {
             "About 1 500 on-disk configurations are opened with the real Compose class; resolved location, source file of every accessor "
             "(each file carries a distinct compose id), equality with a direct load, object identity and zero file opens on re-access, "
             "RuntimeError texts for missing and undecodable files are compared with the model; all 84 / 340 accessor sequences of length <= "
-            "3 / 4 on four configurations.",
+            "3 / 4 on four configurations; the same compose opened by http:// URL from a web server that serves it, answers 404 or "
+            "does not answer (6 layouts x 2 servers x slash x 2 sequences).",
             "Precedence is only stated for compose/ over the direct layout: for other coexisting layouts any location holding metadata is "
-            "allowed; HTTP locations out of scope.",
+            "allowed; composes opened by URL are served by a fake urlopen (real HTTPResponse objects over an in-memory socket): "
+            "direct and compose/ layouts only, as the library documents.",
             "DESIGN.md section 5, C20"),
     "C03": ("model_checking",
             "history BFS over valid add calls (rpms / modules / extra files) with a lockstep layout model; write->read->write at every reachable state against the model",
